@@ -1,5 +1,6 @@
 import RsslVerif.Model.Progress
 import RsslVerif.Model.DefinedLoc
+import RsslVerif.Model.PipelineProps
 import RsslVerif.Driver.Util
 /-! Line-protocol front end of the C08 models (TokenStream bookkeeping, ConditionChain, macro scan with locations). -/
 namespace RsslVerif.Driver.C08
@@ -111,8 +112,46 @@ def parseLines : Nat → Nat → List Char → Bool → Option (Lines × List Ch
 def parseDirs (s : String) : Option Lines :=
   (parseLines (s.length + 1) 0 s.toList false).map (·.1)
 
+/-- `name@column,name@column,..` (an empty string = an empty block) -/
+def parseProps (s : String) : Option (List (String × Nat)) :=
+  if s == "-" then some [] else
+  sequenceOpt ((s.splitOn ",").map fun f =>
+    match f.splitOn "@" with
+    | [n, c] => c.toNat?.map fun k => (n, k)
+    | _ => none)
+
+open RsslVerif.Model.PipelineProps RsslVerif.Gen.PipelineProps in
+/-- C08.pipeprops: the duplicate check and the state loop of `parse_pipeline` (`g` graphics, `c` compute) or the duplicate
+    check and the walk of `parse_static_sampler` (`s`), with the comparison and the tables re-extracted from the source.
+    What `add_stage` and the stage validation do is not modelled: a block whose stage assignments are not exactly the
+    valid set of its kind is `unsupported` unless the duplicate check already answered. -/
+def pipeProps (kind : String) (ps : List (String × Nat)) : String :=
+  let render (o : Out) : String :=
+    match o with
+    | .panic n => if n.startsWith "RenderTargetFormat" then "panic:RenderTargetFormat" else s!"panic:{n}"
+    | o => o.render
+  if kind == "s" then
+    match runSampler samplerDupCompare samplerProps ps with
+    | some o => render o
+    | none => "unsupported: the duplicate check of parse_static_sampler compares in an unrecognised way"
+  else
+    let isCompute := kind == "c"
+    let wanted := if isCompute then ["ComputeShader"] else ["VertexShader", "PixelShader"]
+    let stages := (ps.map (·.1)).filter (fun n => stageProps.contains n)
+    let stagesValid := wanted.all (fun w => stages.count w == 1) && stages.length == wanted.length &&
+      -- `is_compute` is read from the first stage
+      (isCompute || stages.head? != some "ComputeShader")
+    match runAs pipelineDupCompare stateArms stageProps isCompute ps with
+    | none => "unsupported: the duplicate check of parse_pipeline compares in an unrecognised way"
+    | some (.dup l) => render (.dup l)
+    | some o => if stagesValid then render o else "unsupported: stage assignments other than the valid set of the kind (add_stage / stage validation are not modelled)"
+
 def handle (op : String) (args : List String) : String :=
   match op, args with
+  | "C08.pipeprops", [kind, props] =>
+    match parseProps props with
+    | some ps => pipeProps kind ps
+    | none => "bad-request"
   | "C08.lex", [bytesHex, script] =>
     if script == "!" then "unsupported: the single-token lexer failed (C10 models which bytes do)" else
     match parseScript script with
